@@ -6,6 +6,7 @@ import ToastyVerif.Gen.Study
 import ToastyVerif.Model.Pyramid
 import ToastyVerif.Model.Select
 import ToastyVerif.Gen.Parity
+import ToastyVerif.Gen.Samplers
 
 namespace Driver
 
@@ -237,6 +238,26 @@ def handleParity (op : String) (a : List String) : String :=
       s!"{f Gen.Parity.flip_cd1_1} {f Gen.Parity.flip_cd1_2} {f Gen.Parity.flip_cd2_1} {f Gen.Parity.flip_cd2_2} {f Gen.Parity.flip_crpix1} {f Gen.Parity.flip_crpix2}"
   | _, _ => "bad-op"
 
+/-! ### plate-carrée samplers (angles in turns, exact) -/
+
+def handleSampler (variant : String) (a : List String) : String :=
+  match a with
+  | [nx, ny, u, v] =>
+    match nx.toInt?, ny.toInt?, parseRat u, parseRat v with
+    | some nx, some ny, some u, some v =>
+      let r? : Option (Int × Int) := match variant with
+        | "sky" => some (Gen.Sampler.sky nx ny u v)
+        | "zeroright" => some (Gen.Sampler.zeroright nx ny u v)
+        | "planet" => some (Gen.Sampler.planet nx ny u v)
+        | "zeroleft" => some (Gen.Sampler.zeroleft nx ny u v)
+        | "galactic" => some (Gen.Sampler.galactic nx ny u v)
+        | _ => none
+      match r? with
+      | some r => s!"{r.1} {r.2}"
+      | none => "bad-op"
+    | _, _, _, _ => "bad-op"
+  | _ => "bad-op"
+
 def handle (toks : List String) : String :=
   match toks with
   | "gen" :: op :: args => match ints args with
@@ -248,6 +269,7 @@ def handle (toks : List String) : String :=
   | "pyr" :: op :: args => handlePyr op args
   | "scan" :: op :: args => handleScan op args
   | "parity" :: op :: args => handleParity op args
+  | "sampler" :: variant :: args => handleSampler variant args
   | _ => "bad-op"
 
 end Driver
